@@ -450,6 +450,9 @@ namespace occa {
 
       if (src && props.get("use_host_pointer", false)) {
         buf->wrapMemory(src, bytes);
+        // device::malloc counted these bytes: ~modeBuffer_t must give them back
+        // (~buffer leaves the host pointer alone unless own_host_pointer is set)
+        buf->isWrapped = false;
       } else {
         buf->malloc(bytes);
       }
